@@ -910,6 +910,21 @@ def r91(ctx: Ctx) -> RuleReport:
                 sites['dfs'].add(nd.id)
     missing = [k for k in ('empty', 'notset', 'notvar') if not sites[k]]
     if missing:
+        # a test whose "the message applies" branch does nothing at all
+        label = {'E': ('empty', True, 'the graph has no triples', 'graph is empty'), 'T': ('notset', False, 'no top is set', 'top is not set'),
+                 'V': ('notvar', False, 'the top is not a variable of the graph', 'top is not a variable in the graph')}
+        for n_ in walk_local(fi.node):
+            if not isinstance(n_, ast.If):
+                continue
+            at = atom_of(n_.test)
+            if at is None or label[at[0]][0] not in missing:
+                continue
+            kind, when, what, text = label[at[0]]
+            branch = n_.body if at[1] == when else n_.orelse
+            if branch and all(isinstance(x, ast.Pass) for x in branch):
+                rep.violation(f'{fi.fq}: "{text}" is reported when {what}', fi.loc(n_), f'the branch of `{norm(n_.test)}` taken when {what} is empty (`pass`): nothing is added to the '
+                              f'report for it, so such a graph counts as having no error and --check exits 0')
+                return rep
         rep.undecided(f'{fi.fq}: the three graph-level messages are literal strings in the function', fi.loc(), f'not found: {missing}')
         return rep
 
@@ -1160,7 +1175,7 @@ def r95(ctx: Ctx) -> RuleReport:
 # ---------------------------------------------------------------------------------------------
 @rule('R114', 'the reification tables are consulted with the role / concept exactly as the triple has it (no rewriting between the graph and the lookup)')
 def r114(ctx: Ctx) -> RuleReport:
-    rep = RuleReport('R114', r114.title, floor=6)
+    rep = RuleReport('R114', r114.title, floor=3)
     M = ctx.repo.module('penman.model')
     methods = [f for f in M.all_funcs if f.cls is not None and f.cls.name == 'Model']
     for fi in methods:
